@@ -90,7 +90,11 @@ Inductive gk :=
 | GDMark (n : Z)         (* nodes.write() + label_index.write() + node_labels.write(), all held together *)
 | GDPropIdx              (* remove_node_from_property_indexes *)
 | GDProps                (* node_properties.remove_all *)
-(* add_label *)
+(* add_label / remove_label after the repair of C20-K2/K7: nodes.write() is held for the whole operation
+   (existence check, label catalog, node_labels, label_index, record), so each is ONE step *)
+| GAAll (n l : Z)
+| GRAll (n l : Z)
+(* add_label before the repair *)
 | GACheck (n : Z)        (* nodes.read(): exists and not deleted? *)
 | GACat (l : Z)
 | GALabels (n l : Z)     (* node_labels.write(): entry(n).or_default(); contains? insert *)
@@ -126,6 +130,24 @@ Definition gexec (k : gk) (g : lpg) (l : regs) : lpg * regs * ctl out :=
       else (g, l, Ret (OB false))
   | GDPropIdx => (g, l, Next)
   | GDProps => (g, l, Ret (OB true))
+  | GAAll n lb =>
+      if node_live g n then
+        let g1 := with_catalog g (zadd lb (g_catalog g)) in
+        match aget n (g_nlabels g) with
+        | Some ls => if zmem lb ls then (g1, l, Ret (OB false))
+                     else (with_labels g1 (aset n (lb :: ls) (g_nlabels g)) (padd (lb, n) (g_lindex g)), l, Ret (OB true))
+        | None => (with_labels g1 (aset n [lb] (g_nlabels g)) (padd (lb, n) (g_lindex g)), l, Ret (OB true))
+        end
+      else (g, l, Ret (OB false))
+  | GRAll n lb =>
+      if node_live g n && zmem lb (g_catalog g) then
+        match aget n (g_nlabels g) with
+        | Some ls => if zmem lb ls
+                     then (with_labels g (aset n (zrem lb ls) (g_nlabels g)) (prem (lb, n) (g_lindex g)), l, Ret (OB true))
+                     else (g, l, Ret (OB false))
+        | None => (g, l, Ret (OB false))
+        end
+      else (g, l, Ret (OB false))
   | GACheck n | GRCheck n => if node_live g n then (g, l, Next) else (g, l, Ret (OB false))
   | GALabels n lb =>
       match aget n (g_nlabels g) with
@@ -165,11 +187,24 @@ Definition gcode (op : gop) : list gk :=
   match op with
   | GCreateNode ls => GNAlloc :: flat_map (fun lb => [GNCat lb; GNIdx lb]) ls ++ [GNLabels ls; GNIns]
   | GDeleteNode n => [GDMark n; GDPropIdx; GDProps]
-  | GAddLabel n lb => [GACheck n; GACat lb; GALabels n lb; GAIdx n lb]
-  | GRemoveLabel n lb => [GRCheck n; GRCat lb; GRLabels n lb; GRIdx n lb]
+  | GAddLabel n lb => [GAAll n lb]
+  | GRemoveLabel n lb => [GRAll n lb]
   | GCreateEdge s d => [GEAlloc; GECat; GEIns s d; GEFwd s d; GEBwd s d]
   | GDeleteEdge e => [GXMark e; GXFwd e; GXBwd e; GXProps]
   end.
+
+(** the operations as they were before the repair of C20-K2/K7 (add_label / remove_label in four
+    separately locked steps; delete_node is unchanged and listed so that the old witnesses can be stated) *)
+Inductive gop_pre := PAddLabel (n l : Z) | PRemoveLabel (n l : Z) | PDeleteNode (n : Z).
+Definition gcode_pre (op : gop_pre) : list gk :=
+  match op with
+  | PAddLabel n lb => [GACheck n; GACat lb; GALabels n lb; GAIdx n lb]
+  | PRemoveLabel n lb => [GRCheck n; GRCat lb; GRLabels n lb; GRIdx n lb]
+  | PDeleteNode n => [GDMark n; GDPropIdx; GDProps]
+  end.
+Definition gcfg_pre := @config lpg regs gop_pre out.
+Definition grun_pre : list nat -> gcfg_pre -> gcfg_pre := run gcode_pre gexec.
+Definition ginit_pre (g0 : lpg) (progs : list (list gop_pre)) : gcfg_pre := init g0 regs0 progs.
 
 Definition gcfg := @config lpg regs gop out.
 Definition grun : list nat -> gcfg -> gcfg := run gcode gexec.
@@ -194,7 +229,10 @@ Inductive qk :=
 | QIPrim (t : Z)       (* triples.write().insert — false when already present *)
 | QIS (t : Z) | QIP (t : Z) | QIO (t : Z)   (* subject / predicate / object index push *)
 | QRPrim (t : Z)       (* triples.write().remove *)
-| QRS (t : Z) | QRP (t : Z) | QRO (t : Z).  (* retain(|x| x != t) *)
+| QRS (t : Z) | QRP (t : Z) | QRO (t : Z)   (* retain(|x| x != t) *)
+(* after the repair of C20-K1: triples.write() is held while the three indexes are updated *)
+| QIAll (t : Z)        (* insert: primary (false when already present) + subject + predicate + object *)
+| QRAll (t : Z).       (* remove: primary (false when absent) + the three retains *)
 
 Definition qexec (k : qk) (q : rdf) (l : regs) : rdf * regs * ctl out :=
   match k with
@@ -209,14 +247,29 @@ Definition qexec (k : qk) (q : rdf) (l : regs) : rdf * regs * ctl out :=
   | QRS t => (mkRdf (q_prim q) (zrem t (q_s q)) (q_p q) (q_o q), l, Next)
   | QRP t => (mkRdf (q_prim q) (q_s q) (zrem t (q_p q)) (q_o q), l, Next)
   | QRO t => (mkRdf (q_prim q) (q_s q) (q_p q) (zrem t (q_o q)), l, Ret (OB true))
+  | QIAll t => if zmem t (q_prim q) then (q, l, Ret (OB false))
+               else (mkRdf (t :: q_prim q) (t :: q_s q) (t :: q_p q) (t :: q_o q), l, Ret (OB true))
+  | QRAll t => if zmem t (q_prim q)
+               then (mkRdf (zrem t (q_prim q)) (zrem t (q_s q)) (zrem t (q_p q)) (zrem t (q_o q)), l, Ret (OB true))
+               else (q, l, Ret (OB false))
   end.
 
 Inductive qop := QInsert (t : Z) | QRemove (t : Z).
 Definition qcode (op : qop) : list qk :=
   match op with
-  | QInsert t => [QIContains t; QIPrim t; QIS t; QIP t; QIO t]
-  | QRemove t => [QRPrim t; QRS t; QRP t; QRO t]
+  | QInsert t => [QIContains t; QIAll t]
+  | QRemove t => [QRAll t]
   end.
+(** the operations as they were before the repair of C20-K1 (four separately locked updates) *)
+Inductive qop_pre := QInsertPre (t : Z) | QRemovePre (t : Z).
+Definition qcode_pre (op : qop_pre) : list qk :=
+  match op with
+  | QInsertPre t => [QIContains t; QIPrim t; QIS t; QIP t; QIO t]
+  | QRemovePre t => [QRPrim t; QRS t; QRP t; QRO t]
+  end.
+Definition qcfg_pre := @config rdf regs qop_pre out.
+Definition qrun_pre : list nat -> qcfg_pre -> qcfg_pre := run qcode_pre qexec.
+Definition qinit_pre (q0 : rdf) (progs : list (list qop_pre)) : qcfg_pre := init q0 regs0 progs.
 Definition qcfg := @config rdf regs qop out.
 Definition qrun : list nat -> qcfg -> qcfg := run qcode qexec.
 Definition qinit (q0 : rdf) (progs : list (list qop)) : qcfg := init q0 regs0 progs.
@@ -308,14 +361,17 @@ Inductive bk :=
 | BPreLoad (g size : Z)     (* allocated.load(); current + size > hard ? *)
 | BPreLoad2 (g size : Z)
 | BPreAdd (g size : Z)      (* allocated.fetch_add *)
-(* MemoryGrant::resize (grow through try_allocate_raw: load, then add; shrink through release:
-   no yield point lies between the size comparison and the fetch_sub, so the shrinking branch of
-   BZStart performs the fetch_sub itself) *)
+(* MemoryGrant::resize after the repair of C20-K3 (grow through try_allocate_raw = try_reserve, one
+   fetch_update; shrink through release: no yield point lies between the size comparison and the
+   fetch_sub, so the shrinking branch of BZStart performs the fetch_sub itself) *)
 | BZStart (g new : Z)
-| BZLoad2 (g new : Z)
-| BZAdd (g new : Z)
+| BZReserve2 (g new : Z)
 | BZRegion (g new : Z)
 | BZSubRegion (g new : Z)
+(* MemoryGrant::resize before the repair (try_allocate_raw: load, then add) *)
+| BZStartPre (g new : Z)
+| BZLoad2 (g new : Z)
+| BZAdd (g new : Z)
 (* drop of a grant = release *)
 | BRelAlloc (g : Z)         (* allocated.fetch_sub *)
 | BRelRegion (g : Z).       (* region_allocated.fetch_sub *)
@@ -339,6 +395,18 @@ Definition bexec (k : bk) (b : buf) (l : regs) : buf * regs * ctl out :=
   | BZStart g new =>
       if negb (slot_used l g) then (b, l, Ret (OB false))
       else let cur := slot_size l g in
+           if new >? cur then (if b_alloc b + (new - cur) <=? b_hard b
+                               then (mkBuf (b_alloc b + (new - cur)) (b_regs b) (b_hard b), l, Goto 2)
+                               else (b, l, Next))
+           else if new <? cur then (mkBuf (b_alloc b - (cur - new)) (b_regs b) (b_hard b), l, Goto 3)
+           else (b, l, Ret (OB true))
+  | BZReserve2 g new =>
+      if b_alloc b + (new - slot_size l g) <=? b_hard b
+      then (mkBuf (b_alloc b + (new - slot_size l g)) (b_regs b) (b_hard b), l, Next)
+      else (b, l, Ret (OB false))
+  | BZStartPre g new =>
+      if negb (slot_used l g) then (b, l, Ret (OB false))
+      else let cur := slot_size l g in
            if new >? cur then (if b_alloc b + (new - cur) >? b_hard b then (b, l, Next) else (b, l, Goto 2))
            else if new <? cur then (mkBuf (b_alloc b - (cur - new)) (b_regs b) (b_hard b), l, Goto 4)
            else (b, l, Ret (OB true))
@@ -359,12 +427,13 @@ Definition bexec (k : bk) (b : buf) (l : regs) : buf * regs * ctl out :=
        set_mem l (adel g (mem l)), Ret (OB true))
   end.
 
-Inductive bop := BAlloc (g size : Z) | BAllocPre (g size : Z) | BResize (g new : Z) | BRelease (g : Z).
+Inductive bop := BAlloc (g size : Z) | BAllocPre (g size : Z) | BResize (g new : Z) | BResizePre (g new : Z) | BRelease (g : Z).
 Definition bcode (op : bop) : list bk :=
   match op with
   | BAlloc g s => [BReserve g s; BReserve2 g s; BRegion g s]
   | BAllocPre g s => [BPreLoad g s; BPreLoad2 g s; BPreAdd g s; BRegion g s]
-  | BResize g n => [BZStart g n; BZLoad2 g n; BZAdd g n; BZRegion g n; BZSubRegion g n]
+  | BResize g n => [BZStart g n; BZReserve2 g n; BZRegion g n; BZSubRegion g n]
+  | BResizePre g n => [BZStartPre g n; BZLoad2 g n; BZAdd g n; BZRegion g n; BZSubRegion g n]
   | BRelease g => [BRelAlloc g; BRelRegion g]
   end.
 Definition bcfg := @config buf regs bop out.
@@ -447,31 +516,31 @@ Definition pidx_consistent (p : pst) : bool :=
 
 
 (** * Finding classes and program predicates (decidable; used by the theorems and by the runner) *)
-Definition ins_of (p : list qop) : list Z := flat_map (fun op => match op with QInsert t => [t] | _ => [] end) p.
-Definition rem_of (p : list qop) : list Z := flat_map (fun op => match op with QRemove t => [t] | _ => [] end) p.
-(** K: some triple is inserted by one thread and removed by a different thread *)
-Definition k_rdf (progs : list (list qop)) : bool :=
+Definition ins_of (p : list qop_pre) : list Z := flat_map (fun op => match op with QInsertPre t => [t] | _ => [] end) p.
+Definition rem_of (p : list qop_pre) : list Z := flat_map (fun op => match op with QRemovePre t => [t] | _ => [] end) p.
+(** K (pre-repair code): some triple is inserted by one thread and removed by a different thread *)
+Definition k_rdf (progs : list (list qop_pre)) : bool :=
   let n := length progs in
   existsb (fun i => existsb (fun j => negb (Nat.eqb i j) &&
      existsb (fun t => zmem t (rem_of (nth j progs []))) (ins_of (nth i progs []))) (seq 0 n)) (seq 0 n).
 
-Definition ops_add_label (p : list gop) : list Z :=
-  flat_map (fun op => match op with GAddLabel n _ | GRemoveLabel n _ => [n] | _ => [] end) p.
-Definition ops_delete_node (p : list gop) : list Z :=
-  flat_map (fun op => match op with GDeleteNode n => [n] | _ => [] end) p.
-Definition ops_add_pairs (p : list gop) : list (Z * Z) :=
-  flat_map (fun op => match op with GAddLabel n l => [(n, l)] | _ => [] end) p.
-Definition ops_rem_pairs (p : list gop) : list (Z * Z) :=
-  flat_map (fun op => match op with GRemoveLabel n l => [(n, l)] | _ => [] end) p.
+Definition ops_add_label (p : list gop_pre) : list Z :=
+  flat_map (fun op => match op with PAddLabel n _ | PRemoveLabel n _ => [n] | _ => [] end) p.
+Definition ops_delete_node (p : list gop_pre) : list Z :=
+  flat_map (fun op => match op with PDeleteNode n => [n] | _ => [] end) p.
+Definition ops_add_pairs (p : list gop_pre) : list (Z * Z) :=
+  flat_map (fun op => match op with PAddLabel n l => [(n, l)] | _ => [] end) p.
+Definition ops_rem_pairs (p : list gop_pre) : list (Z * Z) :=
+  flat_map (fun op => match op with PRemoveLabel n l => [(n, l)] | _ => [] end) p.
 (** K (torn label index): add_label/remove_label and delete_node of the SAME node by different
     threads, or add_label and remove_label of the SAME (node, label) by different threads *)
-Definition k_label (progs : list (list gop)) : bool :=
+Definition k_label (progs : list (list gop_pre)) : bool :=
   let n := length progs in
   existsb (fun i => existsb (fun j => negb (Nat.eqb i j) &&
      (existsb (fun x => zmem x (ops_delete_node (nth j progs []))) (ops_add_label (nth i progs [])) ||
       existsb (fun x => pmem x (ops_rem_pairs (nth j progs []))) (ops_add_pairs (nth i progs [])))) (seq 0 n)) (seq 0 n).
 (** K (deadlock): add_label/remove_label and delete_node (of any nodes) by different threads *)
-Definition k_label_deadlock (progs : list (list gop)) : bool :=
+Definition k_label_deadlock (progs : list (list gop_pre)) : bool :=
   let n := length progs in
   existsb (fun i => existsb (fun j => negb (Nat.eqb i j) &&
      negb (match ops_add_label (nth i progs []) with [] => true | _ => false end) &&
@@ -486,7 +555,7 @@ Definition k_prop (progs : list (list pop)) : bool :=
 Definition k_wal_rotation (progs : list (list rop)) : bool :=
   Nat.leb 2 (length (filter (fun p => match p with [] => false | _ => true end) progs)).
 Definition safe_op (op : bop) : bool :=
-  match op with BAlloc _ s => 0 <=? s | BRelease _ => true | _ => false end.
+  match op with BAlloc _ s | BResize _ s => 0 <=? s | BRelease _ => true | _ => false end.
 Definition safe_progs (progs : list (list bop)) : bool := forallb (forallb safe_op) progs.
 
 Definition k_buf (progs : list (list bop)) : bool := negb (safe_progs progs).
@@ -527,7 +596,7 @@ Definition gsite (k : gk) (jumped : option nat) : string :=
   | GXMark _ => "lpg.delete_edge.after_mark"
   | GXFwd _ => "lpg.delete_edge.after_forward"
   | GXBwd _ => "lpg.delete_edge.after_backward"
-  | GNIns | GDProps | GAIdx _ _ | GRIdx _ _ | GEBwd _ _ | GXProps => "?"   (* these steps always return *)
+  | GNIns | GDProps | GAIdx _ _ | GRIdx _ _ | GEBwd _ _ | GXProps | GAAll _ _ | GRAll _ _ => "?"   (* these steps always return *)
   end.
 Definition qsite (k : qk) (jumped : option nat) : string :=
   match k with
@@ -538,7 +607,7 @@ Definition qsite (k : qk) (jumped : option nat) : string :=
   | QRPrim _ => "rdf.remove.after_primary"
   | QRS _ => "rdf.remove.after_subject"
   | QRP _ => "rdf.remove.after_predicate"
-  | QIO _ | QRO _ => "?"
+  | QIO _ | QRO _ | QIAll _ | QRAll _ => "?"
   end.
 Definition msite (k : mk) (jumped : option nat) : string :=
   match k with
@@ -551,10 +620,17 @@ Definition bsite (k : bk) (jumped : option nat) : string :=
   | BReserve _ _ => match jumped with Some _ => "buffer.try_allocate.after_reserve" | None => "buffer.try_allocate.after_first_reserve" end
   | BReserve2 _ _ => "buffer.try_allocate.after_reserve"
   | BZStart _ _ => match jumped with
-                   | Some 2%nat => "buffer.try_allocate_raw.after_check"
+                   | Some 2%nat => "buffer.try_allocate_raw.after_add"
                    | Some _ => "buffer.release.after_allocated"
                    | None => "buffer.try_allocate_raw.after_first_load"
                    end
+  | BZReserve2 _ _ => "buffer.try_allocate_raw.after_add"
+  (* pre-repair resize: the sites try_allocate_raw had *)
+  | BZStartPre _ _ => match jumped with
+                      | Some 2%nat => "buffer.try_allocate_raw.after_check"
+                      | Some _ => "buffer.release.after_allocated"
+                      | None => "buffer.try_allocate_raw.after_first_load"
+                      end
   | BZLoad2 _ _ => "buffer.try_allocate_raw.after_check"
   | BZAdd _ _ => "buffer.try_allocate_raw.after_add"
   | BRelAlloc _ => "buffer.release.after_allocated"
@@ -613,6 +689,11 @@ Definition glocks (k : gk) : list lact :=
                  Rel LK_nodes; Rel LK_label_index; Rel LK_node_labels]
   | GDPropIdx => one LK_prop_indexes Rd ++ [Acq LK_prop_indexes Rd; Acq LK_node_props Rd; Rel LK_node_props; Rel LK_prop_indexes]
   | GDProps => one LK_node_props Wr
+  (* after the repair: nodes.write() first and held; then the catalog, label_index, node_labels *)
+  | GAAll _ _ => [Acq LK_nodes Wr] ++ label_cat ++
+                 [Acq LK_label_index Wr; Acq LK_node_labels Wr; Rel LK_node_labels; Rel LK_label_index; Rel LK_nodes]
+  | GRAll _ _ => [Acq LK_nodes Wr] ++ one LK_label_to_id Rd ++
+                 [Acq LK_label_index Wr; Acq LK_node_labels Wr; Rel LK_node_labels; Rel LK_label_index; Rel LK_nodes]
   | GACheck _ | GRCheck _ => one LK_nodes Rd
   (* add_label / remove_label keep label_index.write() while they take nodes.write() and node_labels.read() *)
   | GAIdx _ _ | GRIdx _ _ => [Acq LK_label_index Wr; Acq LK_nodes Wr; Acq LK_node_labels Rd;
@@ -631,6 +712,7 @@ Definition qlocks (k : qk) : list lact :=
   | QIS _ | QRS _ => one LK_sidx Wr
   | QIP _ | QRP _ => one LK_pidx Wr
   | QIO _ | QRO _ => one LK_oidx Wr
+  | QIAll _ | QRAll _ => [Acq LK_triples Wr] ++ one LK_sidx Wr ++ one LK_pidx Wr ++ one LK_oidx Wr ++ [Rel LK_triples]
   end.
 Definition mlocks (k : mk) : list lact :=
   match k with
@@ -640,7 +722,7 @@ Definition mlocks (k : mk) : list lact :=
   end.
 Definition blocks (k : bk) : list lact :=
   match k with
-  | BReserve2 _ _ | BPreLoad2 _ _ | BZLoad2 _ _ => one LK_consumers Rd
+  | BReserve2 _ _ | BPreLoad2 _ _ | BZLoad2 _ _ | BZReserve2 _ _ => one LK_consumers Rd
   | _ => []
   end.
 Definition wlocks (k : wk) : list lact :=
@@ -651,6 +733,8 @@ Definition wlocks (k : wk) : list lact :=
 
 Definition gtrace (op : gop) : list lact := flat_map glocks (gcode op).
 Definition qtrace (op : qop) : list lact := flat_map qlocks (qcode op).
+Definition gtrace_pre (op : gop_pre) : list lact := flat_map glocks (gcode_pre op).
+Definition qtrace_pre (op : qop_pre) : list lact := flat_map qlocks (qcode_pre op).
 Definition mtrace (op : mop) : list lact := flat_map mlocks (mcode op).
 Definition btrace (op : bop) : list lact := flat_map blocks (bcode op).
 Definition wtrace (op : wop) : list lact := flat_map wlocks (wcode op).
@@ -676,10 +760,14 @@ Definition op_table : list (string * list lact) :=
   [ ("create_node 0 labels", gtrace (GCreateNode []));
     ("create_node 2 labels", gtrace (GCreateNode [1; 2]));
     ("delete_node", gtrace (GDeleteNode 0));
+    ("add_label", gtrace (GAddLabel 0 1));
+    ("remove_label", gtrace (GRemoveLabel 0 1));
     ("create_edge", gtrace (GCreateEdge 0 1));
     ("delete_edge", gtrace (GDeleteEdge 0));
     ("rdf insert", qtrace (QInsert 0));
     ("rdf remove", qtrace (QRemove 0));
+    ("rdf insert (pre-repair)", qtrace_pre (QInsertPre 0));
+    ("rdf remove (pre-repair)", qtrace_pre (QRemovePre 0));
     ("tm begin", mtrace (MBegin 0));
     ("tm commit", mtrace (MCommitOp 0));
     ("tm abort", mtrace (MAbortOp 0));
@@ -687,6 +775,7 @@ Definition op_table : list (string * list lact) :=
     ("buffer try_allocate", btrace (BAlloc 0 1));
     ("buffer try_allocate (pre-repair)", btrace (BAllocPre 0 1));
     ("grant resize", btrace (BResize 0 1));
+    ("grant resize (pre-repair)", btrace (BResizePre 0 1));
     ("grant drop", btrace (BRelease 0));
     ("wal log", wtrace (WLog 0));
     ("get_node", tr_get_node);
@@ -697,6 +786,6 @@ Definition op_table : list (string * list lact) :=
 
 (** the transcribed operations that do NOT follow the documented order *)
 Definition rank_violators : list (string * list lact) :=
-  [ ("add_label", gtrace (GAddLabel 0 1));
-    ("remove_label", gtrace (GRemoveLabel 0 1));
+  [ ("add_label (pre-repair)", gtrace_pre (PAddLabel 0 1));
+    ("remove_label (pre-repair)", gtrace_pre (PRemoveLabel 0 1));
     ("compute_statistics", tr_compute_statistics) ]%string.
